@@ -37,8 +37,8 @@ CLAIMED['C04'] = dict(
     note='Trusted: Kani/CBMC; decoration table in the harness. Not covered: argument lowering, by-value aggregates, variadics, libclang mangling, method receivers, actually calling anything.',
     ref='DESIGN.md section 3, C04')
 CLAIMED['C07'] = dict(
-    text='Local obligations that imply the least-fixed-point / order-independence property (Kildall): for HasFloat, HasDestructor, HasVtable, Sizedness, HasTypeParameterInArray and CannotDerive x5 traits the REAL constrain() is applied once to a node of each TypeKind variant from an ARBITRARY analysis state (solver-chosen) on a stub IR with the real Trace impls: it writes only its own entry, new fact = old fact JOIN rule(neighbours), Changed/Same is truthful, the rule is monotone in each neighbour, and whenever a neighbour influences the result the node is subscribed to it (real Trace edges + the analysis own consider_edge). generate_dependencies is checked to record exactly those pairs, and the real work-list loop is checked on a symbolic generic framework (with a failing twin). Finding F4 (opaque items read unsubscribed neighbours) is reported as KNOWN-FINDING.',
-    note='Trusted: Kani/CBMC; the stub IR (same names, flags for name/option-derived predicates); the composition argument is on paper. Not covered: UsedTemplateParameters, edges libclang fails to create, lookups in codegen, nodes with more than 3 neighbour slots.',
+    text='Local obligations that imply the least-fixed-point / order-independence property (Kildall): for HasFloat, HasDestructor, HasVtable, Sizedness, HasTypeParameterInArray and CannotDerive x5 traits the REAL constrain() is applied once to a node of each TypeKind variant from an ARBITRARY analysis state (solver-chosen) on a stub IR with the real Trace impls: it writes only its own entry, new fact = old fact JOIN rule(neighbours), Changed/Same is truthful, the rule is monotone in each neighbour, and whenever a neighbour influences the result the node is subscribed to it (real Trace edges + the analysis own consider_edge). generate_dependencies is checked to record exactly those pairs, and the real work-list loop is checked on a symbolic generic framework (with a failing twin). For the sixth analysis, UsedTemplateParameters, only dependency completeness is decided: the recording loop body of its own new() notes X under every item X traces, allowlisted or not (its set-valued constrain is out of reach, measured). Finding F4 (opaque items read unsubscribed neighbours) is reported as KNOWN-FINDING.',
+    note='Trusted: Kani/CBMC; the stub IR (same names, flags for name/option-derived predicates); the composition argument is on paper. Not covered: UsedTemplateParameters::constrain (locality / monotonicity of the set-valued rule) and the closure computation of its new(), edges libclang fails to create, lookups in codegen, nodes with more than 3 neighbour slots.',
     ref='DESIGN.md section 3, C07')
 CLAIMED['C08'] = dict(
     text='Rule level: for each of the five DeriveTraits and each TypeKind variant the real CannotDerive::constrain (constrain_type, constrain_join, insert, the blocklisted-type decision of context.rs, FunctionSig::function_pointers_can_derive) produces exactly max(previous fact, SPEC) where SPEC is an independent transcription of the documented rules, from an arbitrary pre-state - both directions (never derived when forbidden, never withheld when allowed). Plus the CanDerive lattice laws.',
@@ -70,14 +70,18 @@ CLAIMED['C06'] = dict(
     note='Trusted: Kani/CBMC; the quote! decoding macros; the numbers in the IR (libclang: Type::fallible_layout, Cursor::offset_of_field) - i.e. "equals what the C compiler computes for the target" is NOT claimed; that the statement is reached only for non-template composites is checked syntactically by the slicer (guard text present). Not covered: cross-target runs, that the assertion text compiles, instantiation discovery.',
     ref='DESIGN.md section 3, C06')
 
+CLAIMED['C16'] = dict(
+    text='Decision level: bounded model checking of the three statements of Function::codegen that decide static-function wrapping (early exit for internal linkage, should_wrap with its link_name attribute, registration in items_to_serialize), verbatim, everything between them symbolic: a static function gets a binding iff it is wrapped (wrap_static_fns on, not variadic), the binding names <name><suffix>, exactly one wrapper is registered for it, and nothing is registered for external linkage. Finding F10 (a static function whose binding already carries a #[link_name] - always the case in C++ mode - is bound but not wrapped) is reported as KNOWN-FINDING; its region is exact and the complement is checked strictly.',
+    note='Trusted: Kani/CBMC; name / attribute stubs. Not covered: the C text of a wrapper (codegen/serialize.rs), that it compiles against the headers, behavioural equality of wrapper and wrapped function, utils::serialize_items (file assembly), va_list wrappers beyond their registration.',
+    ref='DESIGN.md section 3, C16')
+
 NOT_APPLICABLE = {
     'C17': 'the only computation of the property that is separable from libclang is DepfileSpec::to_string, which is String::replace x2 inside format!: not encodable under CBMC in reach (measured: three class-pattern instances of <= 3-byte names each ran into the 1200 s limit; gen/props/c17.py is kept but not registered); completeness/exactness of the file set needs libclang and clang -M',
     'C11': 'quantifies over processes, hash seeds, thread interleavings and in-process histories; Kani has no concurrency/process model and the hash containers whose iteration order matters are exactly what the stub environment replaces (DESIGN.md section 3, C11)',
-    'C16': 'serialize.rs writes C text while walking the real IR by item id; needs the real BindgenContext (not encodable under CBMC, measured) and a C compiler as oracle (DESIGN.md section 3, C16)',
 }
 
 PENDING = {p: 'planned (DESIGN.md section 3) but its check is not built yet; not claimed until it is' for p in
-           ['C01','C02','C03','C04','C05','C06','C07','C08','C09','C10','C12','C13','C15','C18'] if p not in CLAIMED}
+           ['C01','C02','C03','C04','C05','C06','C07','C08','C09','C10','C12','C13','C15','C16','C18'] if p not in CLAIMED}
 
 
 def main():
